@@ -1,6 +1,6 @@
 """Unit tables: which contracts/harnesses decide which property.  Declarative; no logic."""
 
-B = "BOUNDED STAND-IN, native run: 19 shipped templates (all but the two ACO ones; the GA also with an odd population and a whole-population tournament) x (3 seeds x 15 iterations + 30 seeds x {1, 2, 3, 6} iterations) on small recording problems; "
+B = "BOUNDED STAND-IN, native run: 19 shipped templates (all but the two ACO ones; the GA also with an odd population and a whole-population tournament, the firefly algorithm also without randomisation and attraction) x (3 seeds x 15 iterations + 30 seeds x {1, 2, 3, 6} iterations) on small recording problems; "
 PROPS = {
     "C05": dict(
         level="other",
@@ -156,8 +156,10 @@ PROPS["C18"] = dict(
     kani=[dict(files=["contracts/C18/c18.rs"])],
     native=[dict(files=["contracts/C07/whole_run_native.rs", "contracts/C18/c18_native.rs"],
                  harnesses={"c18_native_swarm": dict(anchor="PSO components (velocity update, inertia weight, personal/global best)",
-                            bound="BOUNDED STAND-IN, native run: real PSO template with probes, 12 iterations x 4 seeds x 2 objective scales (1 and 1e-18) x 8 parameter sets (decreasing, increasing and constant weight schedules, weights from 0 to 1.5; five with c1 = c2 = 0 to observe the stored inertia weight, three of them with weights above 1; one with a single particle)")})],
-    min_obligations={"quick": 6, "thorough": 6},
+                            bound="BOUNDED STAND-IN, native run: real PSO template with probes, 12 iterations x 4 seeds x 2 objective scales (1 and 1e-18) x 8 parameter sets (decreasing, increasing and constant weight schedules, weights from 0 to 1.5; five with c1 = c2 = 0 to observe the stored inertia weight, three of them with weights above 1; one with a single particle)"),
+                            "c18_native_shipped_template": dict(anchor="heuristics::pso::real_pso (final-state memories)",
+                            bound="BOUNDED STAND-IN, native run: the shipped real_pso template, 6 parameter sets (ordinary, social-only c_one = 0, cognitive-only c_two = 0, no attraction, one particle, one iteration) x 6 seeds: personal bests vs last evaluated positions, global best = best personal best, one memory per particle, velocity bounds")})],
+    min_obligations={"quick": 7, "thorough": 7},
     uncovered=["the velocity formula itself with non-zero c1, c2 (random draws)", "Linear::map for symbolic weights (CBMC does not finish: two float multiply-add chains); only the pairs (0.9, 0.4), (0.4, 0.9)"],
     assumptions=["lens / mapping mirrors (arbitrary functions of problem and state)", "CBMC's IEEE-754 model"],
 )
@@ -267,7 +269,7 @@ PROPS["C14"] = dict(
     kani=[dict(files=["contracts/C14/c14.rs"])],
     native=[dict(files=["contracts/C14/c14_native.rs"],
                  harnesses={"c14_native_initialisation": dict(anchor="random_spread",
-                            bound="BOUNDED STAND-IN, native run: 40 seeds x sizes 0..4 x 4 domains / dimensions 0..5 for random_spread, random_permutation, random_bitstring"),
+                            bound="BOUNDED STAND-IN, native run: 40 seeds x sizes 0..4 x 6 domain vectors (incl. domains 1-3 representable numbers wide; membership as Range::contains, i.e. the upper bound excluded) / dimensions 0..5 for random_spread, random_permutation, random_bitstring"),
                             "c14_native_components": dict(anchor="initialisation and boundary-repair components",
                             bound="BOUNDED STAND-IN, native run: RandomSpread/RandomPermutation/RandomBitstring/Empty components x sizes {0,1,2,7} x 16 seeds; Saturation/Toroidal/Mirror/CompleteOneTailedNormalCorrection components on a 27-point grid per coordinate (up to 1e6 widths outside, every half width up to 5) x 3 domains x 8 seeds (160 for the resampling operator), on unevaluated and on already evaluated individuals (bounds, unchanged-inside, idempotence)")})],
     min_obligations={"quick": 39, "thorough": 39},
@@ -318,7 +320,7 @@ PROPS["C10"] = dict(
                  harnesses={"c10_native_logical_and_optimum": dict(anchor="And::evaluate",
                             bound="BOUNDED STAND-IN, native enumeration: And/Or over every operand vector of length 0..4 (2 evaluations each), Not(And), OptimumReached on a 3x6 grid"),
                             "c10_native_loops_and_chance": dict(anchor="Loop + LessThanN + EveryN + RandomChance (whole loops)",
-                            bound="BOUNDED STAND-IN, native run: loops bounded by n in 0..7 (passes, tests, progress per pass) x every-m for m in 1..4; RandomChance frequency over 20000 draws for 6 probabilities")})],
+                            bound="BOUNDED STAND-IN, native run: loops bounded by n in 0..7 (passes, tests, progress per pass) x every-m for m in 1..4; LessThanN evaluated directly on 6 bounds x 16 observed values (below, at, above n, up to u32::MAX) x {iterations, evaluations}: result and progress value/n; an evaluation-bounded loop that overshoots its budget; RandomChance frequency over 20000 draws for 6 probabilities")})],
     min_obligations={"quick": 18, "thorough": 18},
     uncovered=["And/Or::evaluate (closure capturing &mut state: Verus rejects; Kani does not terminate)", "the VALUE of the progress written by LessThanN (float division is uninterpreted)",
                "OptimumReached", "RandomChance (probability)"],
